@@ -74,7 +74,19 @@ def norm_cmp(e, render=None):
     """-> (key, pol) for comparison e being TRUE, using only '<' and '==' """
     op, l, r = e["op"], e["l"], e["r"]
     render = render or show
-    ls, rs = render(l), render(r)
+
+    def rnd(x):
+        # a constant operand (literal, enumerator, constexpr) is rendered by its value: `type == BSLSP_ENVMAP` and `type == 1`
+        # are one test
+        y = x
+        while is_node(y) and y["k"] == "Cast":
+            y = y["e"]
+        if is_node(y) and y.get("val") is not None and (y["k"] != "Ref" or y.get("rk") not in ("local", "param")) and \
+                isinstance(y["val"], int) and not isinstance(y["val"], bool):
+            return str(y["val"])
+        return render(x)
+
+    ls, rs = rnd(l), rnd(r)
     if op == "<":
         return "(%s < %s)" % (ls, rs), True
     if op == ">":
